@@ -44,7 +44,7 @@ func c02(c *Ctx) {
 	r.Rule("C02.payload-complete", "every byte the application handed to Write / WriteString / ReadFrom / WriteMessage is in the frame: the amount copied into writeBuf is the amount added to w.pos on every path, including reads that return data together with io.EOF (same rule as C01.cursor-siblings)")
 	w.cursorSiblings("C02.payload-complete")
 	r.Rule("C02.buffer-exclusive", "the buffer a frame is built in is not shared with another connection while the frame is being built or written (same rules as C20.owners, C20.put-once, C20.no-use-after)")
-	c.borrow(c20, map[string]string{"C20.owners": "C02.buffer-exclusive", "C20.put-once": "C02.buffer-exclusive", "C20.no-use-after": "C02.buffer-exclusive", "C20.implicit-close": "C02.one-message-at-a-time"})
+	c.borrow(c20, map[string]string{"C20.all-exits": "C02.one-message-at-a-time", "C20.owners": "C02.buffer-exclusive", "C20.put-once": "C02.buffer-exclusive", "C20.no-use-after": "C02.buffer-exclusive", "C20.implicit-close": "C02.one-message-at-a-time"})
 	r.Rule("C02.one-message-at-a-time", "every way of starting a message (NextWriter, both WriteMessage paths) first ends a writer the application left open, so frames of two messages never interleave and no message is lost (same rule as C20.implicit-close)")
 	r.Rule("C02.torn-frame-is-last", "a transport write that failed (possibly after part of the frame) is always recorded as the sticky write error, so no frame follows a torn one (same rule as C10.err-to-fatal)")
 	c.borrow(c10, map[string]string{"C10.err-to-fatal": "C02.torn-frame-is-last"})
